@@ -7,9 +7,11 @@ same (pre-state, call tree).
   spec                                      -> HALT|FAULT ev <n> (<c> <e>)*    specRun of the same tree on the spec's store
   end                                       -> st <n> (<owner> <key> <val>)*   the store under the implementation model
   specend                                   -> st ...                          the store under the specification
+  cinit n (id v)* | cpush | cwrite id v | cpersist | cdrop | cread  -> the values every native id shows at every
+                                               depth of the cache stack `CStack` (native-cache layering of pkg/core/dao)
 Tree tokens: [ nodes ] ; P k v ; D k ; N e ; Q k [..] ; C c fl [..] ; I [..] ;
-  T [body] hasC [cat] hasF [fin] ; X ; A ; G tok to amt fl hasCb [cb] ; F v fl ; B a fl ; U a fl ; Y d fl ;
-  M fl ; Z fl ; R role v fl ; W c fee fl ; V c fl ; E to amt fl hasCb [cb] ; O on fl   (txg | tree: out-of-gas transaction)
+  T [body] hasC [cat] hasF [fin] ; X ; A ; G tok to amt fl hasCb [cb] ; F v fl ; B a fl tag ; U a fl ; Y d fl ;
+  M fl ; Z fl ; R role v fl ; W c fee fl ; V c fl ; E to amt fl tag hasCb [cb] ; O on fl tag   (txg | tree: out-of-gas transaction)
 -/
 import NeoModel.Base.Proto
 import NeoModel.Model.Exec
@@ -62,39 +64,43 @@ mutual
     | "G" :: tok :: to :: amt :: fl :: hasCb :: r => do
       let (cb, r) ← pList r
       let to ← to.toNat?
-      some (.native (.transfer (← tok.toNat?) to (← amt.toNat?) (to < 4)) (Flags.ofNat (← fl.toNat?))
-        (if hasCb == "1" then cb else .skip), r)
+      some (.native false (.transfer (← tok.toNat?) to (← amt.toNat?) (to < 4)) (Flags.ofNat (← fl.toNat?))
+        (if hasCb == "1" then cb else .skip) .skip, r)
     | "F" :: v :: fl :: r => do
-      some (.native (.setFee (← v.toNat?)) (Flags.ofNat (← fl.toNat?)) .skip, r)
-    | "B" :: a :: fl :: r => do
-      -- Policy.blockAccount = revoke the account's votes, the deferred GAS minting, the block itself
+      some (.native false (.setFee (← v.toNat?)) (Flags.ofNat (← fl.toNat?)) .skip .skip, r)
+    | "B" :: a :: fl :: tag :: r => do
+      -- Policy.blockAccount = revoke the account's votes, then in the same frame the deferred GAS minting and the block itself
       let a ← a.toNat?
+      let tag ← tag.toNat?
       let f := Flags.ofNat (← fl.toNat?)
-      some (.seq (.native (.revoke a) f .skip) (.seq (.native (.mint a) f .skip) (.native (.block a) f .skip)), r)
+      some (.native false (.revoke a tag) f .skip
+        (.seq (.native true (.mint a tag) f .skip .skip) (.native true (.block a) f .skip .skip)), r)
     | "U" :: a :: fl :: r => do
-      some (.native (.unblock (← a.toNat?)) (Flags.ofNat (← fl.toNat?)) .skip, r)
+      some (.native false (.unblock (← a.toNat?)) (Flags.ofNat (← fl.toNat?)) .skip .skip, r)
     | "Y" :: d :: fl :: r => do
-      some (.native (.deploy (← d.toNat?)) (Flags.ofNat (← fl.toNat?)) .skip, r)
+      some (.native false (.deploy (← d.toNat?)) (Flags.ofNat (← fl.toNat?)) .skip .skip, r)
     | "M" :: fl :: r => do
-      some (.native .update (Flags.ofNat (← fl.toNat?)) .skip, r)
+      some (.native false .update (Flags.ofNat (← fl.toNat?)) .skip .skip, r)
     | "Z" :: fl :: r => do
-      some (.native .destroy (Flags.ofNat (← fl.toNat?)) .skip, r)
+      some (.native false .destroy (Flags.ofNat (← fl.toNat?)) .skip .skip, r)
     | "R" :: role :: v :: fl :: r => do
-      some (.native (.designate (← role.toNat?) (← v.toNat?)) (Flags.ofNat (← fl.toNat?)) .skip, r)
+      some (.native false (.designate (← role.toNat?) (← v.toNat?)) (Flags.ofNat (← fl.toNat?)) .skip .skip, r)
     | "W" :: c :: fee :: fl :: r => do
-      some (.native (.setWl (← c.toNat?) (← fee.toNat?)) (Flags.ofNat (← fl.toNat?)) .skip, r)
+      some (.native false (.setWl (← c.toNat?) (← fee.toNat?)) (Flags.ofNat (← fl.toNat?)) .skip .skip, r)
     | "V" :: c :: fl :: r => do
-      some (.native (.delWl (← c.toNat?)) (Flags.ofNat (← fl.toNat?)) .skip, r)
-    | "E" :: to :: amt :: fl :: hasCb :: r => do
-      -- NEO.transfer = the method proper, then the deferred GAS minting for sender and receiver
+      some (.native false (.delWl (← c.toNat?)) (Flags.ofNat (← fl.toNat?)) .skip .skip, r)
+    | "E" :: to :: amt :: fl :: tag :: hasCb :: r => do
+      -- NEO.transfer = the method proper, then in the same frame the deferred GAS minting for sender and receiver
       let (cb, r) ← pList r
       let to ← to.toNat?
+      let tag ← tag.toNat?
       let f := Flags.ofNat (← fl.toNat?)
-      some (.seq (.native (.neoXfer to (← amt.toNat?) (to < 4)) f (if hasCb == "1" then cb else .skip))
-        (.seq (.native (.mint 99) f .skip) (.native (.mint to) f .skip)), r)
-    | "O" :: on :: fl :: r => do
+      some (.native false (.neoXfer to (← amt.toNat?) (to < 4) tag) f (if hasCb == "1" then cb else .skip)
+        (.seq (.native true (.mint 99 tag) f .skip .skip) (.native true (.mint to tag) f .skip .skip)), r)
+    | "O" :: on :: fl :: tag :: r => do
       let f := Flags.ofNat (← fl.toNat?)
-      some (.seq (.native (.vote (on != "0")) f .skip) (.native (.mint 99) f .skip), r)
+      let tag ← tag.toNat?
+      some (.native false (.vote (on != "0") tag) f .skip (.native true (.mint 99 tag) f .skip .skip), r)
     | _ => none
 end
 
@@ -131,6 +137,30 @@ structure DState where
   curS : Log := []      -- the same under the specification
   tree : Tree := .skip
   oog : Bool := false
+  cs : CStack := ⟨fun _ => 0, 0, [[]]⟩
+
+/-- what every native id shows at every depth of the cache stack, top first. -/
+def showCaches (st : CStack) : String :=
+  let rec go : List CLayer → List String
+    | [] => []
+    | l :: rest =>
+      (" ".intercalate ((List.range 4).map fun id =>
+        match (roRef (l :: rest) id).map st.heap with
+        | some v => toString v
+        | none => "-")) :: go rest
+  " | ".intercalate (go st.layers)
+
+def cinit : Nat → Toks → CStack → Option CStack
+  | 0, [], st => some st
+  | n + 1, id :: v :: r, st => do
+    let id ← id.toNat?
+    let v ← v.toNat?
+    -- SetCache on the lowest DAO: a fresh cell
+    cinit n r ⟨fun x => if x = st.next then v else st.heap x, st.next + 1,
+      match st.layers with
+      | [l] => [(id, st.next) :: l]
+      | ls => ls⟩
+  | _, _, _ => none
 
 def pNats : Nat → Toks → List Nat → Option (List Nat × Toks)
   | 0, ts, acc => some (acc.reverse, ts)
@@ -158,6 +188,21 @@ def step (s : DState) (ws : List String) : DState × String :=
       let o := implRun s.cur t
       ({ s with cur := o.store, tree := t }, (if o.halt then "HALT " else "FAULT ") ++ showEvents o.raw)
     | _ => (s, "bad-tree")
+  | "cinit" :: n :: r =>
+    match n.toNat? with
+    | some n =>
+      match cinit n r ⟨fun _ => 0, 0, [[]]⟩ with
+      | some st => ({ s with cs := st }, showCaches st)
+      | none => (s, "bad-op")
+    | none => (s, "bad-op")
+  | ["cpush"] => let st := s.cs.push; ({ s with cs := st }, showCaches st)
+  | ["cwrite", id, v] =>
+    match id.toNat?, v.toNat? with
+    | some id, some v => let st := s.cs.write id v; ({ s with cs := st }, showCaches st)
+    | _, _ => (s, "bad-op")
+  | ["cpersist"] => let st := s.cs.persist; ({ s with cs := st }, showCaches st)
+  | ["cdrop"] => let st := s.cs.drop; ({ s with cs := st }, showCaches st)
+  | ["cread"] => (s, showCaches s.cs)
   | "txg" :: "|" :: ts =>
     -- a transaction that runs out of gas at a point the model does not know: FAULT, no change
     match pList ts with
